@@ -39,7 +39,7 @@ def verdict(chk, run, tier, seed):
         return bool(c and table < len(c) and CLASS_IDX[name] < len(c[table]) and c[table][CLASS_IDX[name]])
 
     broken = []
-    rel = {i: [c for c in codes if c % 10 in (1, 2, 3, 4, 5, 9)] for i, codes in exp["mismatches"].items()}
+    rel = {i: [c for c in codes if c % 10 in (1, 2, 3, 4, 5, 7, 8, 9)] for i, codes in exp["mismatches"].items()}
     rel = {i: c for i, c in rel.items() if c}
     if rel or exp["errors"]:
         first = sorted(rel.items(), key=lambda kv: int(kv[0]))[:1]
@@ -48,7 +48,8 @@ def verdict(chk, run, tier, seed):
             i, codes = int(first[0][0]), first[0][1]
             payload["first_differing_case"] = exprun.input_of(run, i, codes[0] // 10)
             payload["subchecks"] = sorted({{1: "K-exp(seaorm declarations)", 2: "K-exp(sqlalchemy import block)", 3: "K-exp(sqlmodel import block)", 4: "K-exp(python class name)",
-                                          5: "K-exp(sqlmodel columns that use text(...))", 9: "shape"}[c % 10] for c in codes})
+                                          5: "K-exp(sqlmodel columns that use text(...))", 7: "K-exp(sqlmodel field annotations)",
+                                          8: "K-exp(sqlalchemy field annotations)", 9: "shape"}[c % 10] for c in codes})
         broken.append(("correspondence:K-exp", payload))
     # ---- O-C17 on the SeaORM declarations parsed from the implementation's text
     failing = []       # (case, table, orm, kinds, detail, explaining classifiers)
@@ -106,6 +107,7 @@ def verdict(chk, run, tier, seed):
     chk.cov["evaluations"] = len(obs)
     chk.cov["distinct_nontrivial"] = exprun.nontrivial_sets(run)
     chk.cov["rule"] = RULE
+    chk.cov["python_mirror_rules"] = exprun.PY_MIRROR_RULES
     chk.cov["samples"] = exprun.table_samples(run)
     chk.cov["distribution"] = dict(exprun.distribution(run), python_modules_parsed=py["checked"],
                                    failure_kinds=dict(collections.Counter(k for f in failing for k in f[3])))
@@ -123,7 +125,7 @@ def verdict(chk, run, tier, seed):
 def run(tier, seed):
     chk = vflib.Check(PROP, tier, seed)
     chk.assumptions = ["model = coq/exp/Model/Names.v: declarations of the generated SeaORM entity (columns with Rust type / Option / primary key, relation fields, relation enums, enum types and variants, referenced entities); tie = K-exp: the real render_entity_with_schema text is parsed structurally and compared with `members` inside Coq for every table",
-                       "PARTIAL: the Python half (SQLAlchemy, SQLModel: syntactically valid, every column exactly once, imports cover every name) is decided only by the ast-based oracle, a test",
+                       "PARTIAL: the Python half (SQLAlchemy, SQLModel) is decided by the ast-based oracle, a test: syntactically valid, every column exactly once, imports cover every name, and a per-column MIRROR check computed from the parsed AST by rules written from the model's type names (coverage.python_mirror_rules: nullability, Python / SQLAlchemy type, primary key, foreign key target, unique, index, default presence); of these only the import blocks, the text(...) columns and the field annotations (type, Optional iff nullable) are also modelled in Gallina and compared inside Coq (K-exp sub-checks 2, 3, 5, 7, 8)",
                        "Rust syntax of the generated entity is not checked beyond its declarations: every struct field, relation enum, enum type and enum variant must be a Rust identifier (ASCII shape [A-Za-z_][A-Za-z0-9_]*, not a keyword unless raw; non-ASCII characters are not judged); the module path super::<table>::Entity is not judged"]
     chk.cov["trusted_base"] = vflib.TRUSTED_COMMON + [
         "structural parser of the SeaORM text in harness_exp/hexp/src/seaparse.rs; Python ast module for the Python ORMs",
